@@ -62,3 +62,22 @@ Proof.
   repeat split; try reflexivity; try discriminate.
   repeat constructor; lia.
 Qed.
+
+(* The side condition [char_range old] of NS_arrayI cannot be dropped (CURRENT
+   code): rArrayI on an array whose elements are wider than char (e.g. int)
+   holding 261: a set of 5 stores 5 - the stored value changed - but rCAPPLY
+   compares (char)261 = 5 with 5 and emits no undo event; a set of 7 reports the
+   previous value 5, not 261.  Replayed on the real code with an int array
+   (kind AIW of the harness; corpus/C14/arrayI_wide.txt); finding class
+   arrayI-wide-element. *)
+Lemma arrayI_wide_element :
+  let e := {| p_name := [119]; p_hash := true; p_min := None; p_max := None; p_map := [] |} in
+  ~ char_range 261 /\ char_range 5 /\ char_range 7 /\
+  rArrayICb_elem e [47; 119; 48] 261 [] = Some (261, [Reply (mk [47; 119; 48] [Ai 261])]) /\
+  rArrayICb_elem e [47; 119; 48] 261 [Ai 5] = Some (5, [Bcast (mk [47; 119; 48] [Ai 5])]) /\
+  rArrayICb_elem e [47; 119; 48] 261 [Ai 7] =
+    Some (7, [Reply (mk undo_path [As [47; 119; 48]; Ai 5; Ai 7]); Bcast (mk [47; 119; 48] [Ai 7])]).
+Proof.
+  cbn zeta. split; [unfold char_range; lia|]. split; [unfold char_range; lia|].
+  split; [unfold char_range; lia|]. repeat split; reflexivity.
+Qed.
